@@ -302,11 +302,16 @@ func runMesh(env *tlsEnv, stream []*tlsVec, limit int, rng *rand.Rand) {
 
 // meshDial dials the echo service and makes one round trip. ok=false: no definite outcome.
 func meshDial(ctx context.Context, n *netceptor.Netceptor, node string, cfg *tls.Config, token, src string) (verdict, bool) {
+	// a refusal is definite only when it is a TLS alert from the peer (quic-go: "CRYPTO_ERROR 0x12a (remote): tls: bad
+	// certificate"); timeouts, cancellations and anything else are no outcome at all
 	indefinite := func(err error) bool {
 		m := err.Error()
+		if strings.Contains(m, "deadline") || strings.Contains(m, "timeout") || strings.Contains(m, "no recent network activity") ||
+			strings.Contains(m, "context canceled") {
+			return true
+		}
 
-		return strings.Contains(m, "deadline") || strings.Contains(m, "timeout") || strings.Contains(m, "no recent network activity") ||
-			strings.Contains(m, "context canceled")
+		return !(strings.Contains(m, "CRYPTO_ERROR") || strings.Contains(m, "tls:") || strings.Contains(m, "certificate"))
 	}
 	dctx, cancel := context.WithTimeout(ctx, 60*time.Second)
 	defer cancel()
